@@ -346,13 +346,13 @@ func c12merge(c *Ctx, fn *ssa.Function) {
 		ret := alt.Ret
 		_ = ret
 		reach := an.Explore(fn, nil, nil, nil)
-		if reach.EvalAt(alt.Results[1], ret) == an.NonNil {
+		if reach.EvalAt(alt.Results[1], ret) == an.NonNil || guardsSayNonNil(alt.Guards, alt.Results[1]) {
 			continue
 		}
 		// a return whose error is the write's own result counts as a success return too
 		n++
 		k := sprintf("%s/returned-updater#%d", key, n)
-		afterWrite := w.Block() == ret.Block() || w.Block().Dominates(ret.Block())
+		afterWrite := w.Block() == alt.Block || w.Block().Dominates(alt.Block)
 		u := an.Origin(alt.Results[0])
 		if ta, ok := u.(*ssa.TypeAssert); ok {
 			u = ta.X
@@ -368,7 +368,7 @@ func c12merge(c *Ctx, fn *ssa.Function) {
 					if fa, ok := v.(*ssa.FieldAddr); ok {
 						if _, f, _, ok := an.FieldOf(fa); ok && f == "value" {
 							for _, ref := range *fa.Referrers() {
-								if st, ok := ref.(*ssa.Store); ok && (st.Block() == ret.Block() || st.Block().Dominates(ret.Block())) {
+								if st, ok := ref.(*ssa.Store); ok && (st.Block() == alt.Block || st.Block().Dominates(alt.Block)) {
 									cloneVal = st.Val
 								}
 							}
